@@ -283,6 +283,10 @@ StaleRightsViol(ev) ==
             ELSE {}
     ELSE {}
 
+\* identifier carried by two different attributes over the history (the F-ALIAS cause, on identifiers)
+AliasedId(i) == Cardinality({u \in DOMAIN ids : ids[u] = i}) > 1
+RightCause(r) == IF \E j \in 1..Len(r) : AliasedId(r[j]) THEN "alias" ELSE "none"
+
 FlavourViol(g2, ev) ==
     LET m == ViewMsk(ev)
     IN (IF Has(ev, "msk") /\ ev.res = "ok" /\ ev.op = "update"
@@ -290,7 +294,10 @@ FlavourViol(g2, ev) ==
                LET rr == m.rights[i]
                    hint == RightHint(m, rr.r)
                IN IF hint # "unknown" /\ \E j \in 1..Len(rr.ch) : j = 1 /\ rr.ch[j].h # (hint = "hyb")
-                  THEN {Vio({"C11"}, "master secret flavour differs from the hints of its right", "none", <<rr.r, hint>>)}
+                  \* (an identifier taken over from a deleted attribute explains a MISSING hybridisation -- the secret
+                  \*  predates the new attribute; ML-KEM material on a right whose attributes are all classic is never excused)
+                  THEN {Vio({"C11"}, "master secret flavour differs from the hints of its right",
+                            IF hint = "hyb" THEN RightCause(rr.r) ELSE "none", <<rr.r, hint>>)}
                   ELSE {}
                : i \in 1..Len(m.rights)}
         ELSE {})
@@ -299,7 +306,7 @@ FlavourViol(g2, ev) ==
         THEN UNION {
                LET rr == m.rights[i]
                IN IF \E j \in 1..Len(rr.ch) : rr.ch[j].h # rr.ch[1].h /\ ev.op \in {"rekey", "roundtrip", "restore_msk"}
-                  THEN {Vio({"C11"}, "secrets of one right have different flavours", "none", <<rr.r>>)}
+                  THEN {Vio({"C11"}, "secrets of one right have different flavours", RightCause(rr.r), <<rr.r>>)}
                   ELSE {}
                : i \in 1..Len(m.rights)}
         ELSE {})
@@ -316,7 +323,7 @@ FlavourViol(g2, ev) ==
                LET uc == ev.uskv.ch[i]
                    mc == RightChain(m, uc.r)
                IN IF mc # <<>> /\ \E j \in 1..Len(uc.c) : uc.c[j].h # mc[1].h
-                  THEN {Vio({"C11"}, "user secret flavour differs from the master key's", "none", <<uc.r>>)}
+                  THEN {Vio({"C11"}, "user secret flavour differs from the master key's", RightCause(uc.r), <<uc.r>>)}
                   ELSE {}
                : i \in 1..Len(ev.uskv.ch)}
         ELSE {})
